@@ -28,12 +28,16 @@ def judge_run(res, r, run, rules, cc_rules, cmp_opts, cc_ignore, desc):
         res.violation('input-file-modified', 'the input file was modified',
                       witness)
     main_spec = os.path.basename(run.specfile)
-    main_log = [e for e in run.cmdlog
-                if len(e.get('argv', [])) > 1 and os.path.basename(
-                    e['argv'][1]) == main_spec]
-    cc_log = [e for e in run.cmdlog
-              if len(e.get('argv', [])) > 1 and os.path.basename(
-                  e['argv'][1]) == 'spec_cc.txt']
+    # which program answered: the spec the command itself reports (it may
+    # carry its spec with it instead of getting it as first argument)
+    def spec_of(e):
+        if e.get('spec'):
+            return os.path.basename(e['spec'])
+        a = e.get('argv', [])
+        return os.path.basename(a[1]) if len(a) > 1 else None
+
+    main_log = [e for e in run.cmdlog if spec_of(e) == main_spec]
+    cc_log = [e for e in run.cmdlog if spec_of(e) == 'spec_cc.txt']
     res.count('tests_observed', len(run.cmdlog))
     if run.out_bytes is None:
         res.count('runs_without_output')
@@ -59,9 +63,15 @@ def judge_run(res, r, run, rules, cc_rules, cmp_opts, cc_ignore, desc):
     if cc_rules is not None:
         golden_cc = (cc_log[0]['exit'], cc_log[0]['out'],
                      cc_log[0]['err']) if cc_log else None
+        if not cc_log:
+            res.violation(
+                'cross-check-command-never-run',
+                'a cross-check command was given but the program that was '
+                'run under its name never was that command', witness)
+            return 'violation'
         rc2, o2, e2 = realrun.run_vcmd(
-            os.path.join(run.workdir, 'vcmd_cc'),
-            os.path.join(run.workdir, 'spec_cc.txt'), run.outfile)
+            run.cc_cmd, os.path.join(run.workdir, 'spec_cc.txt'),
+            run.outfile)
         if golden_cc is None or not realrun.matches(
                 golden_cc, (rc2, o2, e2), ignore_out=cc_ignore,
                 ignore_err=cc_ignore):
@@ -134,7 +144,9 @@ def make_case(r, lexical_corner=False):
     opts += workload.format_options(r) + cmp_opts
     cc_rules = None
     cc_ignore = False
-    if r.random() < 0.2:
+    same_basename = False
+    if r.random() < 0.3:
+        same_basename = r.random() < 0.5
         cc_rules, _ = workload.pick_spec(r, text, families=['has', 'count',
                                                             'ntok', 'all'])
         if r.random() < 0.5:
@@ -151,6 +163,7 @@ def make_case(r, lexical_corner=False):
         'jobs': j,
         'delay': delay,
         'lexical_corner': lexical_corner,
+        'cc_same_basename': same_basename,
     }
     return text, rules, cc_rules, cmp_opts, cc_ignore, opts, delay, desc
 
@@ -158,7 +171,11 @@ def make_case(r, lexical_corner=False):
 def run_case(res, r, wd, case):
     text, rules, cc_rules, cmp_opts, cc_ignore, opts, delay, desc = case
     run = realrun.run_ddsmt(wd, text, rules, opts=opts, cc_spec=cc_rules,
-                            delay=delay)
+                            delay=delay,
+                            cc_same_basename=desc.get('cc_same_basename',
+                                                      False))
+    if desc.get('cc_same_basename'):
+        res.count('runs_with_equally_named_executables')
     verdict = judge_run(res, r, run, rules, cc_rules, cmp_opts, cc_ignore,
                         desc)
     res.count(f'verdict_{verdict}')
@@ -276,7 +293,9 @@ def run(ctx):
         'every 6th with lexical corner cases) x scripted-command predicate '
         '(has/count/subseq/hash/ntok/depth/scoped, 2-3 behaviour classes) x '
         'strategy x -j{1,2,4,8} x {default,pretty,wrap} x comparison '
-        'options x optional cross-check command x optional command delays; '
+        'options x optional cross-check command (in half of these runs the '
+        'two executables have the same file name in different directories) '
+        'x optional command delays; '
         'plus a slice with the real /usr/bin/z3 as command (the output must '
         'give the same exit code and streams as the input); '
         'distinct non-trivial = distinct runs with >=1 accepted and >=1 '
